@@ -23,6 +23,7 @@ import json
 import math
 import random
 import struct
+import warnings
 from pathlib import Path
 
 import numpy as np
@@ -701,7 +702,10 @@ def gen_case(rng: random.Random) -> dict:
     if slm_pending is not None:
         body.insert(rng.randrange(0, len(body) + 1), slm_pending)
     ops += body
-    return {"device": dspec, "reg": rspec, "mode": mode, "ops": ops}
+    case = {"device": dspec, "reg": rspec, "mode": mode, "ops": ops}
+    if rng.random() < 0.08:
+        case["prelude"] = "leakage-zero"      # history: another emulator (leakage level, idle program) built first
+    return case
 
 
 def build_padded(case):
@@ -1008,9 +1012,33 @@ class CaseResult:
     detail: str = ""
 
 
+def _leakage_prelude(xy: bool) -> None:
+    """History for the case: an emulator with a leakage level, built first in the same process on a
+    program that drives nothing.  The emulator under test must not notice (its state space depends on
+    its own sequence only, not on module-level tables another emulator has written to)."""
+    import qutip
+    from pulser import Pulse, Register, Sequence
+    from pulser.devices import MockDevice
+    from pulser_simulation import QutipEmulator, SimConfig
+
+    try:
+        with warnings.catch_warnings():
+            warnings.simplefilter("ignore")
+            seq = Sequence(Register({"a": (0, 0), "b": (7, 0)}), MockDevice)
+            seq.declare_channel("c", "mw_global" if xy else "rydberg_global")
+            seq.add(Pulse.ConstantPulse(100, 0.0, 0.0, 0.0), "c")
+            QutipEmulator.from_sequence(seq, config=SimConfig(
+                noise=("leakage", "eff_noise"), eff_noise_opers=[qutip.Qobj(np.diag([0, 0, 1.0]))],
+                eff_noise_rates=[0.1]))
+    except Exception:  # noqa: BLE001 — a refused prelude is no history at all
+        pass
+
+
 def run_case(model: Model, case: dict, verbose: bool = False) -> CaseResult:
     from pulser_simulation import QutipEmulator
 
+    if case.get("prelude") == "leakage-zero":
+        _leakage_prelude(case.get("mode") == "xy")
     seq, reg, device, ops, rejected = build_padded(case)
     try:
         info = render(seq, case, ops)
@@ -1085,6 +1113,8 @@ def features(case, info: Rendered | None):
         fs.append("no-delay")
     if case["reg"].get("dim") == 3:
         fs.append("3D")
+    if case.get("prelude"):
+        fs.append("prelude:" + case["prelude"])
     if info is not None:
         per = collections.Counter((c.basis, c.cls) for c in {(c.ch, c.basis, c.cls): c for c in info.contribs}.values())
         if any(v >= 2 for (b, cls), v in per.items() if cls != "D"):
